@@ -22,6 +22,7 @@ from ..chrun import Chooser
 from ..common import Check, HarnessError
 
 TWIN = False
+BASIC_SOURCE_CHARS = " \t\v\f\n\r" + "abcdefghijklmnopqrstuvwxyzABCDEFGHIJKLMNOPQRSTUVWXYZ0123456789" + "_{}[]#()<>%:;.?*+-/^&|~!=,\\\"'"
 MAXTOK = 3
 ALPHA = None  # set per worker / run
 FNAME = "dir/in put.h"
@@ -198,7 +199,34 @@ BREAKERS = [
 ]
 
 
-def breaker_judge(ci, bi):
+# line-directive preambles: (text before 'int before;', text after it)
+PREAMBLES = [("", ""), ('#line 100 "a.h"\n', ""), ('#line 100 "a.h"\n', '#line 5 "b.h"\n'), ('# 1 "x.h"\n# 1 "<built-in>"\n# 31 "x.h"\n', ""),
+             ("", '# 7 "dir/in put.h"\n'), ('#line 3 "a.h"\nint a0;\n#line 50 "b.h"\n', '#line 9 "a.h"\n')]
+_LINE_DIRECTIVE = __import__("re").compile(r'#[ \t]*(?:line)? (\d+) "(.*)"$')
+
+
+def presumed_lines(src, fname):
+    """reference reading of #line / # N "file" directives: set of (file, presumed line) of all physical lines"""
+    image, f, n = set(), fname, 1
+    for line in src.split("\n"):
+        m = _LINE_DIRECTIVE.match(line)
+        if m:
+            f, n = m.group(2), int(m.group(1))
+            continue
+        image.add((f, n))
+        n += 1
+    return image
+
+
+def check_located(msg, image, e):
+    if e.__cause__ is None:
+        return "CxxParseError without a cause"
+    if any(msg.startswith(f"{f}:{n}: ") for f, n in image):
+        return None
+    return f"message does not start with a <file>:<line> that a line of the input has under its #line directives: {msg[:70]!r}"
+
+
+def breaker_judge(ci, bi, pi=0):
     from cxxheaderparser.simple import parse_string
     from cxxheaderparser.errors import CxxParseError
 
@@ -208,28 +236,32 @@ def breaker_judge(ci, bi):
                or (where == "inside-class" and in_class))
     if not applies:
         return None, None
-    src = "int before;\n" + ctmpl.format(X=btext) + "int after;\n"
+    pre, mid = PREAMBLES[pi]
+    src = pre + "int before;\n" + mid + ctmpl.format(X=btext) + "int after;\n"
     nlines = src.count("\n") + 1
     try:
         parse_string(src, filename=FNAME)
     except CxxParseError as e:
+        if pi:
+            return src, check_located(str(e), presumed_lines(src, FNAME), e)
         return src, check_message(str(e), nlines, e)
     except Exception as e:  # noqa
         return src, f"{type(e).__name__} escaped: {e}"
     return src, "rule-breaking input was accepted"
 
 
-def h_breakers(c0: int, c1: int) -> bool:
+def h_breakers(c0: int, c1: int, c2: int) -> bool:
     """
     post: _
     """
     with NoTracing():
-        ch = Chooser([c0, c1])
+        ch = Chooser([c0, c1, c2])
         ci = ch.pick(len(CONTEXTS))
         bi = ch.pick(len(BREAKERS))
+        pi = ch.pick(len(PREAMBLES))
         if TWIN:
             return False
-        return breaker_judge(ci, bi)[1] is None
+        return breaker_judge(ci, bi, pi)[1] is None
 
 
 def trunc_judge(pi, cut):
@@ -289,6 +321,10 @@ def h_errrule(value: str, lineno: int, offset: int) -> bool:
     pre: lineno >= 1
     post: _
     """
+    return _errrule_body(value, lineno, offset)
+
+
+def _errrule_body(value, lineno, offset):
     from cxxheaderparser.lexer import PlyLexer, LexError
 
     with NoTracing():
@@ -313,6 +349,26 @@ def h_errrule(value: str, lineno: int, offset: int) -> bool:
     return False
 
 
+class _Opaque:
+    """stands for an arbitrary token text by parametricity: it can only be formatted, any inspection raises"""
+
+    def __str__(self):
+        return "<text>"
+
+    __repr__ = __str__
+
+    def __format__(self, spec):
+        return "<text>"
+
+
+def h_errrule_opaque(lineno: int, offset: int) -> bool:
+    """
+    pre: lineno >= 1
+    post: _
+    """
+    return _errrule_body(_Opaque(), lineno, offset)
+
+
 def run(tier):
     from .. import chrun
     from cxxheaderparser.parser import CxxParser
@@ -326,6 +382,7 @@ def run(tier):
     nfull, ncore = (2, 3) if tier == "quick" else (3, 4)
     ck.bounds = dict(reduced_alphabet=alpha, full_alphabet_tokens=nfull, core_alphabet=CORE, core_tokens=ncore, contexts=[c[0] for c in CONTEXTS], breakers=[b[0] for b in BREAKERS])
     ck.assume("token sequences are rendered with a blank or newline between tokens, file name 'dir/in put.h'",
+              "error rules whose message formatting makes CrossHair fork per text are also run with an opaque text object that can only be formatted (parametricity: the rule then cannot depend on the text)",
               "RecursionError-class resource exhaustion is an Exception and therefore wrapped by parse(); BaseException is outside",
               "the reduced alphabet is recomputed from parser.py's AST on every run")
     ck.out_of_scope(f"token sequences longer than {nfull} (reduced alphabet) / {ncore} (core alphabet)", "byte-level mutations of long inputs")
@@ -355,28 +412,65 @@ def run(tier):
         body = "from cxxheaderparser.lexer import PlyLexer\nprint(PlyLexer('f').lex.lexerrorf)\nsys.exit(1)\n"
         ck.violation("PLY's internal LexError branch is reachable: no t_error rule or an empty match", ck.write_replay(body), key=dict(kind="lexer-total"))
     kinds = classify_rules(model, ck)
+    # illegal characters: outside the C++ basic source character set (+ CR).  At a token start they must enter t_error, and
+    # only literal / comment / directive-line rules (or error rules) may swallow one inside a match.
+    ill = lambda c: z3.And([c != ord(x) for x in BASIC_SOURCE_CHARS])  # noqa
+    containers = [i for i, (nm, _, _) in enumerate(model.rules)
+                  if any(w in nm for w in ("STRING", "CHAR", "COMMENT", "INCLUDE_DIRECTIVE", "PP_DIRECTIVE")) or kinds.get(nm, ("", None))[0] == "error"]
+    q2 = rx.Q()
+    q2.add(*zd.domain_constraints())
+    q2.push(); q2.add(ill(zd.ch(0)), k0 != rx.ERR); r_ill0 = q2.check(); m_ill0 = rx.model_string(q2.model(), zd.c) if r_ill0 == "sat" else None; q2.pop()
+    q2.push()
+    q2.add(k0 >= 0, *[k0 != i for i in containers], z3.Or([z3.And(e0 > i, ill(zd.ch(i))) for i in range(n)]))
+    r_ill1 = q2.check(); m_ill1 = rx.model_string(q2.model(), zd.c) if r_ill1 == "sat" else None
+    q2.pop()
+    ck.add_queries("z3", q2.n, q2.secs)
+    q2.report(ck, "illegal characters")
+    ck.states += q2.n
+    okc = r_ill0 == "unsat" and r_ill1 == "unsat"
+    ck.sub("lexer: a character outside the basic source character set at a token start enters t_error; only literal / comment / directive rules may contain one",
+           "E-RX", "holds" if okc else ("flagged" if "sat" in (r_ill0, r_ill1) else "inconclusive"), queries=q2.n, bound=f"n={n}, all code points", container_rules=len(containers))
+    for wit in (m_ill0, m_ill1):
+        if wit is None:
+            continue
+        body = ("from cxxheaderparser.lexer import PlyLexer, LexError\n" f"s = {wit!r}\nlx = PlyLexer('f'); lx.input(s)\n"
+                "try:\n    t = lx.token()\nexcept LexError as e:\n    print('rejected', e); sys.exit(0)\n"
+                "print('accepted as', t.type if t else None, repr(t.value) if t else ''); sys.exit(1)\n")
+        p = ck.write_replay(body)
+        ok, out = ck.run_replay(p)
+        if not ok:
+            raise HarnessError(f"illegal-character witness {wit!r} did not reproduce on the real lexer: {out[-200:]}")
+        cp = next((c for c in wit if c not in BASIC_SOURCE_CHARS), "?")
+        ck.violation(f"illegal character U+{ord(cp):04X} is accepted by the lexer (input {wit!r}): {out.strip()[-80:]}", p, key=dict(kind="illegal-char-accepted"))
     err_rules = [nm for nm, (k, _) in kinds.items() if k == "error"] + ["t_error"]
     pool = chrun.make_pool()
     try:
-        futs = [(nm, pool.submit(chrun._work, __name__, "h_errrule", (), 20.0 if tier == "quick" else 120.0, 10.0, dict(RULE=nm))) for nm in err_rules]
+        tmo = 40.0 if tier == "quick" else 240.0
+        futs = [(nm, pool.submit(chrun._work, __name__, "h_errrule", (), tmo, 10.0, dict(RULE=nm, TWIN=False)),
+                 pool.submit(chrun._work, __name__, "h_errrule_opaque", (), tmo, 10.0, dict(RULE=nm, TWIN=False))) for nm in err_rules]
         tw = pool.submit(chrun._work, __name__, "h_errrule", (), 30.0, 10.0, dict(RULE="t_error", TWIN=True))
-        bad_rules, conf, paths = [], 0, 0
-        for nm, f in futs:
-            r = f.result()
-            paths += r["paths"]
-            ck.add_queries("crosshair-z3", r["z3_checks"], r["z3_s"])
+        bad_rules, conf, paths, by_param = [], 0, 0, []
+        for nm, f, fo in futs:
+            r, ro = f.result(), fo.result()
+            paths += r["paths"] + ro["paths"]
+            ck.add_queries("crosshair-z3", r["z3_checks"] + ro["z3_checks"], r["z3_s"] + ro["z3_s"])
             st = [s_ for s_, _ in r["msgs"]]
-            if "CONFIRMED" in st:
-                conf += 1
-            elif any(s_ in ("POST_FAIL", "POST_ERR", "EXEC_ERR") for s_ in st):
+            sto = [s_ for s_, _ in ro["msgs"]]
+            if any(s_ in ("POST_FAIL", "POST_ERR", "EXEC_ERR") for s_ in st):
                 bad_rules.append((nm, next(m for s_, m in r["msgs"] if s_ in ("POST_FAIL", "POST_ERR", "EXEC_ERR"))))
+            elif "CONFIRMED" in st:
+                conf += 1
+            elif "CONFIRMED" in sto:
+                # the rule only formats the text (any inspection of the opaque stand-in would have raised): all texts by parametricity
+                conf += 1
+                by_param.append(nm)
             else:
-                ck.undecided.append(f"error rule {nm}: {st}")
+                ck.undecided.append(f"error rule {nm}: symbolic text {st}, opaque text {sto}")
         ck.states += paths
         if not any(s_ == "POST_FAIL" for s_, _ in tw.result()["msgs"]):
             raise HarnessError("error-rule harness is vacuous")
         ck.sub("error rules and t_error raise LexError through _error with tok.location = current location (all texts, all line numbers)", "E-CH",
-               "confirmed" if not bad_rules and conf == len(futs) else ("flagged" if bad_rules else "inconclusive"), rules=len(futs), confirmed=conf, paths=paths)
+               "confirmed" if not bad_rules and conf == len(futs) else ("flagged" if bad_rules else "inconclusive"), rules=len(futs), confirmed=conf, paths=paths, confirmed_with_opaque_text=by_param)
         for nm, msg in bad_rules:
             ce = chrun.parse_counterexample(msg)
             args = ce[0] if ce else ["$", 1, 0]
@@ -401,10 +495,10 @@ def run(tier):
             chrun.record(ck, r, f"all token sequences ({label}): return or CxxParseError '<file>:<existing line>: ...' with a cause", bound=f"<= {mt} tokens over {len(al)} spellings")
             res_all.append((al, mt, r))
         # (iii)
-        tw = chrun.run(__name__, "h_breakers", [(0, 1)], timeout=60, globs=dict(TWIN=True), pool=pool)
+        tw = chrun.run(__name__, "h_breakers", [(0, 1, 0)], timeout=60, globs=dict(TWIN=True), pool=pool)
         chrun.record(ck, tw, "rule breakers reachability twin", expect="refuted")
         rb = chrun.run(__name__, "h_breakers", [(a,) for a in range(len(CONTEXTS))], timeout=120, pool=pool)
-        chrun.record(ck, rb, "rule-breaking constructs in every block context are rejected with a located CxxParseError", bound=f"{len(CONTEXTS)} contexts x {len(BREAKERS)} constructs")
+        chrun.record(ck, rb, "rule-breaking constructs in every block context are rejected with a located CxxParseError", bound=f"{len(CONTEXTS)} contexts x {len(BREAKERS)} constructs x {len(PREAMBLES)} #line preambles")
         from .c09 import prog_cache
 
         rt = chrun.run(__name__, "h_trunc", [(a,) for a in range(len(prog_cache()))], timeout=(150 if tier == "quick" else 600), pool=pool)
@@ -427,13 +521,13 @@ def run(tier):
     seen = set()
     for shard, args, kw, msg in rb.counterexamples:
         ch = Chooser(list(shard) + list(args), prefix=())
-        ci, bi = ch.pick(len(CONTEXTS)), ch.pick(len(BREAKERS))
-        src, bad = breaker_judge(ci, bi)
+        ci, bi, pi = ch.pick(len(CONTEXTS)), ch.pick(len(BREAKERS)), ch.pick(len(PREAMBLES))
+        src, bad = breaker_judge(ci, bi, pi)
         ck.traces += 1
         if bad is None:
             raise HarnessError(f"breaker counterexample did not reproduce: {msg}")
-        body = ("from vf.props import c06\n" f"src, bad = c06.breaker_judge({ci}, {bi})\nprint(src); print(bad)\nsys.exit(1 if bad else 0)\n")
-        ck.violation(f"{BREAKERS[bi][0]} in context {CONTEXTS[ci][0]}: {bad}  ({src!r})", ck.write_replay(body), key=dict(kind="breaker", breaker=BREAKERS[bi][0], context=CONTEXTS[ci][0]))
+        body = ("from vf.props import c06\n" f"src, bad = c06.breaker_judge({ci}, {bi}, {pi})\nprint(src); print(bad)\nsys.exit(1 if bad else 0)\n")
+        ck.violation(f"{BREAKERS[bi][0]} in context {CONTEXTS[ci][0]} (line-directive preamble {pi}): {bad}  ({src!r})", ck.write_replay(body), key=dict(kind="breaker", breaker=BREAKERS[bi][0], context=CONTEXTS[ci][0]))
     for shard, args, kw, msg in rt.counterexamples[:5]:
         ch = Chooser(list(shard) + list(args), prefix=())
         from .c09 import token_gaps
